@@ -41,6 +41,8 @@ if not RERUN:
 assert sh('git -C /repo status --porcelain').stdout.strip() == '', 'repo not clean'
 r = sh(f'git -C /repo apply {dst}/patch.diff')
 assert r.returncode == 0, r.stderr
+# the evidence files are records of the UNCHANGED tree: keep them out of the way while the change is applied
+ev_backup = {c: open(f'/verif/evidence/{c}.json').read() for c in [pid] + others if os.path.exists(f'/verif/evidence/{c}.json')}
 try:
     for c in [pid] + others:
         t0 = time.time()
@@ -60,5 +62,7 @@ try:
         print(f'  check {c}: exit {r.returncode}', viol[0] if viol else '', json.dumps(rep)[:300] if rep else '')
 finally:
     sh('git -C /repo checkout -- .')
+    for c, text in ev_backup.items():
+        open(f'/verif/evidence/{c}.json', 'w').write(text)
 meta['caught_by'] = [x['check'] for x in meta['ran'] if x['rc'] == 1]
 json.dump(meta, open(f'{dst}/meta.json', 'w'), indent=1)
